@@ -334,7 +334,7 @@ def endpoint_decorated(sc):
     return out
 
 
-def run_driver(scenarios, wd, tag="drv", timeout=600, target="dirkdrv", env=None, allow_exit=(0,), dirk=None):
+def run_driver(scenarios, wd, tag="drv", timeout=600, target="dirkdrv", env=None, allow_exit=(0,), dirk=None, keep=None):
     """Run the child driver on a list of scenarios; returns (events, returncode).  dirk: path of the real dirk binary - the scenarios
     are then run against the shipped program over TLS (signing ops, restart = SIGKILL + new process, kill_after_us)."""
     exe = build_harness(target)
@@ -360,16 +360,18 @@ def run_driver(scenarios, wd, tag="drv", timeout=600, target="dirkdrv", env=None
             line = line.strip()
             if line:
                 try:
-                    events.append(json.loads(line))
+                    ev_ = json.loads(line)
                 except Exception:
-                    pass  # torn last line after a kill
+                    continue  # torn last line after a kill
+                if keep is None or ev_.get("ev") in keep:      # (keep: event kinds the caller projects; the rest is not held in memory)
+                    events.append(ev_)
     if rc not in allow_exit and rc != -9:
         if rc not in allow_exit:
             pass
     return events, rc, err
 
 
-def run_driver_parallel(scenarios, wd, tag="drv", nproc=4, timeout=600, target="dirkdrv"):
+def run_driver_parallel(scenarios, wd, tag="drv", nproc=4, timeout=600, target="dirkdrv", keep=None):
     """Independent sequential scenarios spread over several driver processes (contiguous chunks, so that neighbouring scenarios
     share the world cache).  Returns (events, worst return code, stderr of the failing child)."""
     from concurrent.futures import ThreadPoolExecutor
@@ -378,7 +380,7 @@ def run_driver_parallel(scenarios, wd, tag="drv", nproc=4, timeout=600, target="
     size = (len(scenarios) + nproc - 1) // nproc
     chunks = [scenarios[i:i + size] for i in range(0, len(scenarios), size)]
     with ThreadPoolExecutor(len(chunks)) as ex:
-        res = list(ex.map(lambda ic: run_driver(ic[1], wd, tag="%s_%d" % (tag, ic[0]), timeout=timeout, target=target), enumerate(chunks)))
+        res = list(ex.map(lambda ic: run_driver(ic[1], wd, tag="%s_%d" % (tag, ic[0]), timeout=timeout, target=target, keep=keep), enumerate(chunks)))
     events, rc, err = [], 0, ""
     for ev, r, e in res:
         events += ev
